@@ -106,9 +106,11 @@ func (s *BlockchainRpcTxWatcher) StartWatchingTxs() error {
 			case <-s.ctx.Done():
 				return nil
 			case nb := <-s.newBlockChan:
+				s.Lock()
 				for _, obs := range s.observerLoopList {
-					go func(height uint32) { obs.blockChan <- height }(uint32(nb))
+					go func(blockChan chan uint32, height uint32) { blockChan <- height }(obs.blockChan, uint32(nb))
 				}
+				s.Unlock()
 				// Todo: HandleCsvTx could also need a refresh.
 				err := s.HandleCsvTx(nb)
 				if err != nil {
